@@ -304,7 +304,15 @@ pub fn format_blame_metadata(
                         }
                         formatted
                     }
-                    None => chrono_humanize::HumanTime::from(blame.time).to_string(),
+                    None => {
+                        // Relative to one "now" for all lines: the text also identifies the
+                        // commit, and must not change while the lines of a commit go by.
+                        lazy_static! {
+                            static ref NOW: DateTime<chrono::Utc> = chrono::Utc::now();
+                        }
+                        chrono_humanize::HumanTime::from(blame.time.signed_duration_since(*NOW))
+                            .to_string()
+                    }
                 }))
             }
             Some(Placeholder::Str("author")) => Some(Cow::from(blame.author)),
